@@ -4,45 +4,199 @@
 -/
 import CnvVerif.Model.Bins
 import CnvVerif.Lemmas.Bins
+import Mathlib.Tactic.Linarith
+import Mathlib.Tactic.Ring
+import Mathlib.Tactic.NormNum
+import Mathlib.Algebra.Order.Field.Basic
+import Mathlib.Data.Rat.Floor
+import Mathlib.Tactic.FieldSimp
+import Mathlib.Tactic.Positivity
 namespace CnvVerif
 
 /-- half-to-even rounding is within one half of its argument -/
 theorem roundHalfEven_bounds (q : Rat) :
     (roundHalfEven q : Rat) - 1 / 2 ≤ q ∧ q ≤ (roundHalfEven q : Rat) + 1 / 2 := by
-  sorry
+  have h1 : (q.floor : Rat) ≤ q := Rat.floor_le q
+  have h2 : q < (q.floor : Rat) + 1 := by have := Rat.lt_floor_add_one q; push_cast at this; exact this
+  unfold roundHalfEven
+  simp only
+  split
+  · rename_i h; constructor <;> linarith
+  · rename_i h
+    split
+    · rename_i h'; push_cast; constructor <;> linarith
+    · rename_i h'
+      split
+      · constructor <;> linarith
+      · push_cast; constructor <;> linarith
 
 theorem roundHalfEven_nonneg (q : Rat) (h : 0 ≤ q) : 0 ≤ roundHalfEven q := by
-  sorry
+  have hf : 0 ≤ q.floor := Rat.le_floor_iff.mpr (by simpa using h)
+  unfold roundHalfEven
+  simp only
+  split
+  · exact hf
+  · split
+    · omega
+    · split <;> omega
 
 /-- the quotient the code rounds is not negative -/
 theorem span_div_nonneg (avg : Rat) (havg : 0 < avg) (r : Row) (hr : r.s ≤ r.e) :
     0 ≤ ((r.e - r.s : Int) : Rat) / avg := by
-  sorry
+  apply div_nonneg _ havg.le
+  have : (0 : Int) ≤ r.e - r.s := by omega
+  exact_mod_cast this
+
+/-! ### arithmetic cores (no rows) -/
+
+private theorem lower_core (span n minSize : Int) (avg : Rat) (hn : 2 ≤ n)
+    (h1 : (n : Rat) - 1 / 2 ≤ (span : Rat) / avg) (havg : 0 < avg)
+    (hmin : (minSize : Rat) ≤ 3 / 4 * avg) : minSize ≤ span / n := by
+  have hn' : (2 : Rat) ≤ n := by exact_mod_cast hn
+  have h2 : ((n : Rat) - 1 / 2) * avg ≤ span := by rwa [le_div_iff₀ havg] at h1
+  have h3 : (minSize : Rat) * n ≤ 3 / 4 * avg * n :=
+    mul_le_mul_of_nonneg_right hmin (by linarith)
+  have h4 : 0 ≤ avg * ((n : Rat) - 2) := mul_nonneg havg.le (by linarith)
+  have h5 : (minSize : Rat) * n ≤ span := by nlinarith
+  have h6 : minSize * n ≤ span := by exact_mod_cast h5
+  exact (Int.le_ediv_iff_mul_le (by omega)).mpr h6
+
+private theorem upper_core (span n sz : Int) (avg : Rat) (hn : 2 ≤ n)
+    (h1 : (span : Rat) / avg ≤ (n : Rat) + 1 / 2) (havg : 4 ≤ avg)
+    (hsz : sz ≤ span / n + 1) : (sz : Rat) ≤ 3 / 2 * avg := by
+  have hn' : (2 : Rat) ≤ n := by exact_mod_cast hn
+  have hnpos : (0 : Rat) < n := by linarith
+  have havg0 : (0 : Rat) < avg := by linarith
+  have h2 : (span : Rat) ≤ ((n : Rat) + 1 / 2) * avg := by rwa [div_le_iff₀ havg0] at h1
+  have h3 : span / n * n ≤ span := Int.ediv_mul_le span (by omega)
+  have h3' : ((span / n : Int) : Rat) * n ≤ span := by exact_mod_cast h3
+  have h4 : (sz : Rat) ≤ ((span / n : Int) : Rat) + 1 := by exact_mod_cast hsz
+  -- d * n ≤ (n + 1/2) * avg ≤ 5/4 * avg * n
+  have h5 : 0 ≤ avg * ((n : Rat) - 2) := mul_nonneg havg0.le (by linarith)
+  have h6 : ((span / n : Int) : Rat) * n ≤ 5 / 4 * avg * n := by nlinarith
+  have h7 : ((span / n : Int) : Rat) ≤ 5 / 4 * avg := le_of_mul_le_mul_right h6 hnpos
+  linarith
+
+private theorem pos_core (span n : Int) (avg : Rat) (hn : 2 ≤ n)
+    (h1 : (n : Rat) - 1 / 2 ≤ (span : Rat) / avg) (havg : 1 ≤ avg) (hspan : 0 < span) :
+    1 ≤ span / n := by
+  have havg0 : (0 : Rat) < avg := by linarith
+  have hs : (0 : Rat) < span := by exact_mod_cast hspan
+  have h2 : (span : Rat) / avg ≤ span := div_le_self hs.le havg
+  have h3 : (n : Rat) < (span : Rat) + 1 := by linarith
+  have h4 : n < span + 1 := by exact_mod_cast h3
+  exact (Int.le_ediv_iff_mul_le (by omega)).mpr (by omega)
+
+/-- the bin count as an integer -/
+private theorem nbinsOf_cast (avg : Rat) (r : Row) :
+    ((nbinsOf avg r : Nat) : Int) = max 1 (roundHalfEven (((r.e - r.s : Int) : Rat) / avg)) := by
+  unfold nbinsOf
+  omega
 
 /-- no bin is shorter than the minimum size, provided the minimum is at most 3/4 of the average
     (a region kept by the size filter and cut into `n ≥ 2` bins has at least `(n - 1/2)·avg` bases) -/
 theorem splitRow_size_lower (avg : Rat) (havg : 0 < avg) (minSize : Int)
     (hmin : (minSize : Rat) ≤ 3 / 4 * avg) (r : Row) (hr : r.s ≤ r.e) :
     ∀ x ∈ splitRow avg minSize r, minSize ≤ x.e - x.s := by
-  sorry
+  intro x hx
+  by_cases h : minSize ≤ r.e - r.s
+  · rw [splitRow_closed avg havg minSize r hr h] at hx
+    split at hx
+    · simp only [List.mem_singleton] at hx
+      subst hx; exact h
+    · rename_i hne
+      have hpos := nbinsOf_pos avg r
+      have hc := nbinsOf_cast avg r
+      have hb := roundHalfEven_bounds (((r.e - r.s : Int) : Rat) / avg)
+      have hsz := splitInto_sizes r (nbinsOf avg r) hpos x hx
+      have hn2 : (2 : Int) ≤ (nbinsOf avg r : Nat) := by omega
+      have heq : ((nbinsOf avg r : Nat) : Int) = roundHalfEven (((r.e - r.s : Int) : Rat) / avg) := by
+        omega
+      have hcore := lower_core (r.e - r.s) (nbinsOf avg r : Nat) minSize avg hn2
+        (by rw [heq]; exact hb.1) havg hmin
+      omega
+  · have : splitRow avg minSize r = [] := by
+      unfold splitRow
+      simp only
+      rw [if_neg (by simpa using h)]
+    rw [this] at hx
+    cases hx
 
 /-- no bin is longer than 1.5 × the average size (`avg ≥ 4`: the one extra base of an uneven cut
     has to fit into avg/4) -/
 theorem splitRow_size_upper (avg : Rat) (havg : 4 ≤ avg) (minSize : Int) (r : Row) (hr : r.s ≤ r.e) :
     ∀ x ∈ splitRow avg minSize r, ((x.e - x.s : Int) : Rat) ≤ 3 / 2 * avg := by
-  sorry
+  intro x hx
+  have havg0 : (0 : Rat) < avg := by linarith
+  by_cases h : minSize ≤ r.e - r.s
+  · rw [splitRow_closed avg havg0 minSize r hr h] at hx
+    have hpos := nbinsOf_pos avg r
+    have hc := nbinsOf_cast avg r
+    have hb := roundHalfEven_bounds (((r.e - r.s : Int) : Rat) / avg)
+    split at hx
+    · rename_i h1
+      simp only [List.mem_singleton] at hx
+      subst hx
+      have hle : roundHalfEven (((x.e - x.s : Int) : Rat) / avg) ≤ 1 := by omega
+      have hle' : (roundHalfEven (((x.e - x.s : Int) : Rat) / avg) : Rat) ≤ 1 := by
+        exact_mod_cast hle
+      have h2 : ((x.e - x.s : Int) : Rat) / avg ≤ 3 / 2 := by linarith [hb.2]
+      rw [div_le_iff₀ havg0] at h2
+      exact h2
+    · rename_i hne
+      have hsz := splitInto_sizes r (nbinsOf avg r) hpos x hx
+      have hn2 : (2 : Int) ≤ (nbinsOf avg r : Nat) := by omega
+      have heq : ((nbinsOf avg r : Nat) : Int) = roundHalfEven (((r.e - r.s : Int) : Rat) / avg) := by
+        omega
+      exact upper_core (r.e - r.s) (nbinsOf avg r : Nat) (x.e - x.s) avg hn2
+        (by rw [heq]; exact hb.2) havg hsz.2
+  · have : splitRow avg minSize r = [] := by
+      unfold splitRow
+      simp only
+      rw [if_neg (by simpa using h)]
+    rw [this] at hx
+    cases hx
 
 /-- bins are not empty (`avg ≥ 1`: never more bins than bases) -/
 theorem splitRow_positive (avg : Rat) (havg : 1 ≤ avg) (minSize : Int) (r : Row) (hr : r.s < r.e) :
     ∀ x ∈ splitRow avg minSize r, x.s < x.e := by
-  sorry
+  intro x hx
+  have havg0 : (0 : Rat) < avg := by linarith
+  by_cases h : minSize ≤ r.e - r.s
+  · rw [splitRow_closed avg havg0 minSize r (by omega) h] at hx
+    have hpos := nbinsOf_pos avg r
+    have hc := nbinsOf_cast avg r
+    have hb := roundHalfEven_bounds (((r.e - r.s : Int) : Rat) / avg)
+    split at hx
+    · simp only [List.mem_singleton] at hx
+      subst hx; exact hr
+    · rename_i hne
+      have hsz := splitInto_sizes r (nbinsOf avg r) hpos x hx
+      have hn2 : (2 : Int) ≤ (nbinsOf avg r : Nat) := by omega
+      have heq : ((nbinsOf avg r : Nat) : Int) = roundHalfEven (((r.e - r.s : Int) : Rat) / avg) := by
+        omega
+      have hcore := pos_core (r.e - r.s) (nbinsOf avg r : Nat) avg hn2
+        (by rw [heq]; exact hb.1) havg (by omega)
+      omega
+  · have : splitRow avg minSize r = [] := by
+      unfold splitRow
+      simp only
+      rw [if_neg (by simpa using h)]
+    rw [this] at hx
+    cases hx
 
 /-- `2 * int(avg * 2**-5)` -/
 theorem defaultMinSize_eq (avg : Rat) (h : 0 ≤ avg) : defaultMinSize avg = 2 * (avg / 32).floor := by
-  sorry
+  have h0 : (0 : Rat) ≤ avg * (1 / 32) := by positivity
+  have he : avg * (1 / 32) = avg / 32 := by ring
+  unfold defaultMinSize truncRat Generated.ANTI_MIN_FACTOR Generated.ANTI_MIN_SCALE
+  rw [if_pos h0, he]
 
 /-- the default minimum is at most avg/16, far below the 3/4·avg the lower size bound needs -/
 theorem defaultMinSize_le (avg : Rat) (h : 0 ≤ avg) : (defaultMinSize avg : Rat) ≤ avg / 16 := by
-  sorry
+  rw [defaultMinSize_eq avg h]
+  have h1 : ((avg / 32).floor : Rat) ≤ avg / 32 := Rat.floor_le _
+  push_cast
+  linarith
 
 end CnvVerif
